@@ -3,6 +3,7 @@ import L21.Props.C06F
 import L21.Props.C06S
 import L21.Props.C12
 import L21.Props.C17
+import L21.Props.LayersT
 #print axioms L21.RawGds.c06_array_count
 #print axioms L21.RawGds.c06_array_positions
 #print axioms L21.RawGds.c06_array_only_lattice
@@ -23,3 +24,4 @@ import L21.Props.C17
 #print axioms L21.RawGds.c06_flatten_placed
 #print axioms L21.RawGds.c06_classify_keeps
 #print axioms L21.RawGds.demo_import
+#print axioms L21.Layers.import_history_numbers
